@@ -69,10 +69,13 @@ def apply_op(lang, text, op):
         if not text:
             return text
         return text[: (a * 37) % (len(text) + 1)]
-    if k in ("DelLine", "DupLine", "SwapLines", "JoinLines"):
+    if k in ("DelLine", "DupLine", "SwapLines", "JoinLines", "Flatten"):
         lines = text.split("\n")
         n = len(lines)
         i = a % n
+        if k == "Flatten":
+            i = a % n
+            return "\n".join(lines[:i] + [" ".join(x.strip() for x in lines[i:] if x.strip())]) + "\n"
         if k == "JoinLines":
             if n < 2:
                 return text
